@@ -220,6 +220,7 @@ def forward_module(E, with_parse=True):
     src = HEADER + D.print_enum(E, ds) + "\n"
     if with_parse:
         src += probe_impl(E)
+    src += E.get("extra_items", "")
     did = E["id"]
     err = err_type(E)
     body = []
